@@ -29,6 +29,8 @@ def _scripts(maxlen: int) -> list[str]:
         out += [a + b for a in ALPH for b in ALPH]
     if maxlen >= 3:
         out += [a + b + c for a in "oc" for b in "ocu" for c in "ocu"]
+    if maxlen >= 4:     # two opens / two closes in one request: which session a close refers to, which token is handed out
+        out += ["ococ", "coco", "ocou", "cocu", "ocoo", "cocc"]
     return out
 
 
@@ -39,10 +41,10 @@ def _tla_scripts(ss) -> str:
 def run(ctx: Ctx) -> None:
     wd = ctx.wd.stage("sticky")
     sany(wd, "StickyLife")
-    scripts = _scripts(2 if ctx.quick else 3)
+    scripts = _scripts(4)
     invs = STATEMENT
     wrap_module(wd, "StickyLife", "MC_Life", {"ScriptsDef": _tla_scripts(scripts)})
-    wrap_module(wd, "StickyLife", "G_Life", {"ScriptsDef": _tla_scripts(_scripts(2))})
+    wrap_module(wd, "StickyLife", "G_Life", {"ScriptsDef": _tla_scripts(_scripts(4))})
     ov = {"Scripts": "ScriptsDef"}
     consts = {"MaxReq": 3 if ctx.quick else 4, "FixMint": True, "FixCapture": True}
     r = run_tlc(wd, "MC_Life", render_cfg(constants=consts, overrides=ov, invariants=invs), coverage=True)
@@ -57,7 +59,7 @@ def run(ctx: Ctx) -> None:
     gr, g = dump_graph(wd, "G_Life", render_cfg(constants=gconsts, overrides=ov, invariants=invs), name="life")
     ctx.add_tlc("StickyLife state graph", gr)
     require_ok(gr, "StickyLife graph")
-    paths = g.edge_cover_paths(ctx.rng, max_paths=400 if ctx.quick else 3000,
+    paths = g.edge_cover_paths(ctx.rng, max_paths=900 if ctx.quick else 4000,
                                key=lambda s, lab, d: (lab, len(s["live"]), s["view"] != 0, s["draining"], s["n"]))
     if not ctx.quick:
         paths += g.random_paths(ctx.rng, 1500, 8)
